@@ -541,6 +541,77 @@ theorem cd_model_entry (f : Vec → Vec) (sp : Option Space) (x : Vec) (s : Step
   simp only [Option.getD_some]
   exact getR_colDiff _ _ _ _ ((hlen _).trans (hlen _).symm)
 
+/-- Where the forward point would exceed the upper bound (in particular when *no* direction is
+    admissible: frozen component, interval narrower than the step), entry `(j, k)` of the centered
+    Jacobian is entry `(j, k)` of the forward-difference Jacobian (backward quotient), for every
+    lower bound. -/
+theorem cd_blocked_entry_eq_fd (f : Vec → Vec) (sp : Space) (x : Vec) (s : Step) (idx : List Nat)
+    (k j : Nat) (hk : k < (effIndices x.length idx).length)
+    (hi : (effIndices x.length idx)[k] < x.length)
+    (hlen : ∀ y, (f y).length = (f x).length) (u : ℚ)
+    (hu : sp.ubW (effIndices x.length idx)[k] = some u)
+    (hb : u < getR x (effIndices x.length idx)[k] + s.at (effIndices x.length idx)[k])
+    (hh : 0 < s.at (effIndices x.length idx)[k]) :
+    getR ((cdGrad f (some sp) x s idx).getD k []) j =
+      getR ((fdGrad f (some sp) x s idx).getD k []) j := by
+  rw [cd_model_entry f (some sp) x s idx k j hk hi hlen, fd_model_entry f (some sp) x s idx k j hk hlen]
+  obtain ⟨hp, hm, _⟩ := cd_forward_blocked sp x s _ u hu hb
+  have hfd : fdStep (some sp) x s (effIndices x.length idx)[k] = -(s.at (effIndices x.length idx)[k]) := by
+    simp [fdStep, hu, hb]
+  rw [hp, hm, hfd, bump_zero, absR_eq_abs]
+  have e : (0 : ℚ) - -(s.at (effIndices x.length idx)[k]) = s.at (effIndices x.length idx)[k] := by ring
+  rw [e, abs_of_pos hh]
+  have hne : s.at (effIndices x.length idx)[k] ≠ 0 := ne_of_gt hh
+  rw [div_eq_div_iff hne (neg_ne_zero.mpr hne)]
+  ring
+
+open Set in
+/-- **First order where no symmetric pair fits**: in the situation of `cd_blocked_entry_eq_fd`
+    the centered Jacobian entry is within `h/2 · sup|F''|` of the derivative (the bound of the
+    backward quotient, `fd_model_first_order`), for every width of the bounds including `lb = ub`. -/
+theorem cd_model_first_order_blocked (f : Vec → Vec) (sp : Space) (x : Vec) (s : Step)
+    (idx : List Nat) (k j : Nat) (hk : k < (effIndices x.length idx).length)
+    (hi : (effIndices x.length idx)[k] < x.length)
+    (hlen : ∀ y, (f y).length = (f x).length) (u : ℚ)
+    (hu : sp.ubW (effIndices x.length idx)[k] = some u)
+    (hb : u < getR x (effIndices x.length idx)[k] + s.at (effIndices x.length idx)[k])
+    (hh : 0 < s.at (effIndices x.length idx)[k])
+    (F F' F'' : ℝ → ℝ) (M : ℝ)
+    (hF : ∀ t : ℚ, F ((getR x (effIndices x.length idx)[k] : ℚ) + (t : ℝ)) =
+      ((getR (f (bump x (effIndices x.length idx)[k] t)) j : ℚ) : ℝ))
+    (hf : ∀ t ∈ uIcc ((getR x (effIndices x.length idx)[k] : ℚ) : ℝ)
+        ((getR x (effIndices x.length idx)[k] : ℚ) + ((fdStep (some sp) x s (effIndices x.length idx)[k] : ℚ) : ℝ)),
+        HasDerivAt F (F' t) t)
+    (hf' : ∀ t ∈ uIcc ((getR x (effIndices x.length idx)[k] : ℚ) : ℝ)
+        ((getR x (effIndices x.length idx)[k] : ℚ) + ((fdStep (some sp) x s (effIndices x.length idx)[k] : ℚ) : ℝ)),
+        HasDerivAt F' (F'' t) t)
+    (hM : ∀ t ∈ uIcc ((getR x (effIndices x.length idx)[k] : ℚ) : ℝ)
+        ((getR x (effIndices x.length idx)[k] : ℚ) + ((fdStep (some sp) x s (effIndices x.length idx)[k] : ℚ) : ℝ)),
+        |F'' t| ≤ M) :
+    |((getR ((cdGrad f (some sp) x s idx).getD k []) j : ℚ) : ℝ)
+        - F' ((getR x (effIndices x.length idx)[k] : ℚ) : ℝ)|
+      ≤ ((s.at (effIndices x.length idx)[k] : ℚ) : ℝ) / 2 * M := by
+  rw [cd_blocked_entry_eq_fd f sp x s idx k j hk hi hlen u hu hb hh]
+  have hfd : fdStep (some sp) x s (effIndices x.length idx)[k] = -(s.at (effIndices x.length idx)[k]) := by
+    simp [fdStep, hu, hb]
+  have hd : fdStep (some sp) x s (effIndices x.length idx)[k] ≠ 0 := by
+    rw [hfd]; exact neg_ne_zero.mpr (ne_of_gt hh)
+  have := fd_model_first_order f (some sp) x s idx k j hk hlen F F' F'' M hd hF hf hf' hM
+  have habs : |((fdStep (some sp) x s (effIndices x.length idx)[k] : ℚ) : ℝ)|
+      = ((s.at (effIndices x.length idx)[k] : ℚ) : ℝ) := by
+    rw [hfd]; push_cast; rw [abs_neg, abs_of_pos]; exact_mod_cast hh
+  rwa [habs] at this
+
+/-- A frozen component (`lb = ub`, both finite) of a normalised design space has the working
+    interval `[0, 0]` (`normalize_vect` uses the factor 1 for a zero width), not `[0, 1]`: at the
+    only admissible point `0` every positive step is blocked in both directions. -/
+theorem frozen_normalized_bounds (sp : Space) (i : Nat) (v : ℚ) (hn : sp.normalize = true)
+    (hl : sp.lb.getD i none = some v) (hu : sp.ub.getD i none = some v) :
+    sp.ubW i = some 0 ∧ sp.lbW i = some 0 := by
+  unfold Space.ubW Space.lbW Space.isNorm Space.isFrozen
+  rw [hl, hu, hn]
+  simp
+
 open Set in
 /-- **The model's centered-difference Jacobian is second-order accurate** wherever the two
     symmetric points are used (no design space, or at least one step inside the bounds). -/
@@ -835,5 +906,40 @@ example : |((fun t : ℝ => t ^ 3) (1 + 1 / 4) - (fun t : ℝ => t ^ 3) (1 - 1 /
       have := (hasDerivAt_id t).const_mul 6
       simpa using this)
     (fun t _ => by norm_num)
+
+/-- Tight design space (reversed subset): component 0 is frozen (`lb = ub = 1`), component 1 lives in
+    an interval a quarter of a step wide with the point on its upper bound, component 2 has room.
+    Neither `x + h` nor `x − h` is admissible for components 0 and 1; all the hypotheses of
+    `fd_calls_within_upper_bounds` hold and the backward step is taken for both. -/
+example :
+    (∀ p ∈ fdCalls (some ⟨[some 1, some 0, some 0], [some 1, some (1/16), some 4], false⟩) [1, 1/16, 2]
+        (.scalar (1/4)) [1, 0],
+      ∀ j u, (⟨[some 1, some 0, some 0], [some 1, some (1/16), some 4], false⟩ : Space).ubW j = some u →
+        getR p j ≤ u) ∧
+    fdStep (some ⟨[some 1, some 0, some 0], [some 1, some (1/16), some 4], false⟩) [1, 1/16, 2] (.scalar (1/4)) 0
+      = -(1/4) ∧
+    fdStep (some ⟨[some 1, some 0, some 0], [some 1, some (1/16), some 4], false⟩) [1, 1/16, 2] (.scalar (1/4)) 1
+      = -(1/4) := by
+  refine ⟨?_, by decide +kernel, by decide +kernel⟩
+  apply fd_calls_within_upper_bounds
+  intro j u h
+  match j with
+  | 0 => simp [Space.ubW, Space.isNorm] at h; subst h; decide +kernel
+  | 1 => simp [Space.ubW, Space.isNorm] at h; subst h; decide +kernel
+  | 2 => simp [Space.ubW, Space.isNorm] at h; subst h; decide +kernel
+  | j + 3 => simp [Space.ubW, Space.isNorm] at h
+
+/-- The same tight design space with the centered scheme: the column of the frozen component is the
+    backward quotient (finite, equal to the forward-difference column), not `0/0`; with a normalised
+    frozen component the working upper bound is `0`. -/
+example :
+    cdGrad (polyFun [[⟨1, [2, 1, 0]⟩]]) (some ⟨[some 1, some 0, some 0], [some 1, some (1/16), some 4], false⟩)
+        [1, 1/16, 2] (.scalar (1/4)) [0]
+      = fdGrad (polyFun [[⟨1, [2, 1, 0]⟩]]) (some ⟨[some 1, some 0, some 0], [some 1, some (1/16), some 4], false⟩)
+        [1, 1/16, 2] (.scalar (1/4)) [0] ∧
+    cdGrad (polyFun [[⟨1, [2, 1, 0]⟩]]) (some ⟨[some 1, some 0, some 0], [some 1, some (1/16), some 4], false⟩)
+        [1, 1/16, 2] (.scalar (1/4)) [0] = [[(1 - (3/4)^2) * (1/16) / (1/4)]] ∧
+    (⟨[some 3], [some 3], true⟩ : Space).ubW 0 = some 0 := by
+  decide +kernel
 
 end GV.C16
